@@ -168,6 +168,7 @@ func TestCheck(t *testing.T) {
 	rep.Cases(n, func(idx int64, rng *mon.Rand) {
 		if idx%6 == 5 {
 			componentCase(ctx, rep, rng)
+			sharedExecutorCase(ctx, rep, rng.Sub("shared"))
 			return
 		}
 		mode := gspec.Mode(idx % 3)
